@@ -10,7 +10,6 @@ import gen_rules
 import evalcommon as ec
 import mbtext
 
-PREFIX_CLASS = 'marker-prefix-multibyte'
 
 
 def judge_sub(val, b, en, quoted, marker, plen, locale):
@@ -41,9 +40,9 @@ def judge_sub(val, b, en, quoted, marker, plen, locale):
     # independent column oracle (tools/mbtext.py): display widths from a table of characters, not from the C library
     probs = mbtext.judge_markers(head, before, matched, marker, locale, open_end=en > le)
     if probs and any(c >= 128 for c in head) and locale != 'C':
-        # the head counted in bytes instead of columns, everything else right: one class
+        # the behaviour repaired by 951a0f1: the head counted in bytes instead of columns, everything else right
         if not mbtext.judge_markers(b' ' * len(head), before, matched, marker, locale, open_end=en > le):
-            return ['%s (line %r, marker %r)' % (probs[0], quoted[:60], marker[:80])], PREFIX_CLASS
+            probs = [probs[0] + ' - the head %r is accounted for in bytes, not in columns' % head[:60]]
     return ['%s (line %r)' % (x, shown[:50]) for x in probs], None
 
 
@@ -103,7 +102,7 @@ def check_explanations(c, locale='C'):
                     if str(lno) != pf[1]:
                         probs.append('explanation names line %d, the condition is on line %s' % (lno, pf[1]))
                     plen = len(m.group(0))
-                    pind = plen
+                    pind = mbtext.display_width(m.group(0), locale)
                 else:
                     plen = pind
                     if quoted[:plen].strip() != b'':
@@ -125,9 +124,11 @@ def check_explanations(c, locale='C'):
 
 KEYS = [b'Subject', b'To', b'X-Long-Header-Name', b'Body', b'Date', b'a']
 CONFS = [(b'/h', b'/h/conf'), (b'/home/user', b'/home/user/.mdsort.conf'), (b'/h', b'/etc/mdsort.conf'), (b'/h', b'rel/conf'), (b'', b'/c')]
-# a configuration path / header name with characters of several bytes or two columns (generated only while the class is listed)
-CONFS_MB = [(b'/h', '/h/d\u00e9/conf'.encode()), (b'/h', '/etc/\u4e2d/m.conf'.encode()), ('/h\u00e9'.encode(), '/h\u00e9/c\u0301onf'.encode())]
-KEYS_MB = ['S\u00e9'.encode(), 'X-\u4e2d'.encode()]
+# a configuration path / header name with characters of several bytes, of two columns, of no column (the head of an explanation
+# must be accounted for in columns: repaired in mdsort by 951a0f1)
+CONFS_MB = [(b'/h', '/h/d\u00e9/conf'.encode()), (b'/h', '/etc/\u4e2d/m.conf'.encode()), ('/h\u00e9'.encode(), '/h\u00e9/c\u0301onf'.encode()),
+            (b'/home/user', '/home/user/\u6587\u4ef6/\u00fc.conf'.encode()), (b'/x', '/h/\U0001f600.conf'.encode()), (b'/h', '/h/caf\u00e9'.encode())]
+KEYS_MB = ['S\u00e9'.encode(), 'X-\u4e2d'.encode(), '\u0416'.encode(), 'X-e\u0301'.encode()]
 
 
 class InspectCase:
@@ -148,15 +149,15 @@ class InspectCase:
                 'line': self.lno, 'sub_matches': self.subs, 'request': self.request()}
 
 
-def inspect_case(rng, prefix_mb=False):
+def inspect_case(rng):
     c = InspectCase()
     c.home, c.conf = rng.choice(CONFS)
     c.key = rng.choice(KEYS)
-    if prefix_mb:
-        if rng.random() < 0.6:
-            c.home, c.conf = rng.choice(CONFS_MB)
-        else:
-            c.key = rng.choice(KEYS_MB)
+    r = rng.random()
+    if r < 0.12:
+        c.home, c.conf = rng.choice(CONFS_MB)
+    if 0.08 < r < 0.20:
+        c.key = rng.choice(KEYS_MB)
     c.lno = rng.choice([1, 2, 7, 10, 42, 100, 1234])
     c.impl = c.model = None
     # the value: 1-3 lines, each optional leading blanks + pieces (mostly single characters, see mbtext.atom)
@@ -224,7 +225,7 @@ def judge_inspect(c, locale):
     pre = c.prefix()
     for i, (b, e) in enumerate(printed):
         quoted, marker = lines[2 * i], lines[2 * i + 1]
-        head = pre if i == 0 else b' ' * len(pre)
+        head = pre if i == 0 else b' ' * mbtext.display_width(pre, locale)      # later explanations: as many blanks as the head has columns
         if quoted[:len(head)] != head:
             probs.append('explanation %d does not begin with %r: %r' % (i, head[:40], quoted[:60]))
             continue
@@ -249,8 +250,6 @@ def inspect_stage(rep, h, env, rng, n):
         if info != ('1 1' if locale == 'C' else '1 6'):
             raise vlib.CheckError('the driver does not run in locale %s (setlocale/MB_CUR_MAX: %r)' % (locale, info))
         cases = [inspect_case(rng) for _ in range(n)]
-        if PREFIX_CLASS in rep.known:
-            cases += [inspect_case(rng, prefix_mb=True) for _ in range(max(20, n // 20))]
         reqs = [c.request() for c in cases]
         impl = vlib.run_batch([h], reqs, lenv)
         model = vlib.run_batch([vlib.driver_path()], ['M ' + r for r in reqs], denv)
@@ -273,7 +272,8 @@ def inspect_stage(rep, h, env, rng, n):
                 rep.finding(known, dict(c.readable(), locale='LC_ALL=' + locale, what=probs[:2], printed=vlib.unhex(i).decode('utf-8', 'replace')))
         stats['cases'] += len(cases)
         stats['marker_lines_judged'] += nj
-        stats['per_locale'][locale] = {'cases': len(cases), 'marker_lines_judged': nj, 'rejected_by_column_oracle': nbad}
+        stats['per_locale'][locale] = {'cases': len(cases), 'marker_lines_judged': nj, 'rejected_by_column_oracle': nbad,
+                                       'non_ascii_path_or_header_name': sum(1 for c in cases if any(x >= 128 for x in c.prefix()))}
     stats['correspondence_mismatches'] = len(mism)
     if mism and not rep.violations:
         rep.violation({'obligation': 'correspondence expr_inspect/strnwidth <-> Model/Inspect.lean (exprInspect, strnwidth over the platform mbtowc/wcwidth)',
@@ -296,7 +296,7 @@ def locale_proc_stage(rep, tools, rng):
           'marker_lines_judged': 0, 'disagreements': 0}
     bad = []
     for fi, f in enumerate(fams):
-        key = b'Subject' if f.kind == 'header' else b'Body'
+        key = f.hname if f.kind == 'header' else b'Body'
         for l in mbtext.LOCALES:
             res = f.result[l]
             if res['status'] != (0, 0):
@@ -305,7 +305,7 @@ def locale_proc_stage(rep, tools, rng):
                 else:
                     st.setdefault('rejected_patterns', []).append('%s under LC_ALL=%s: regcomp and mdsort both reject it' % (f.readable()['rule'], l))
                 continue
-            head = ('%s/conf:2: ' % res['root']).encode() + key + b': '
+            head = res['conf'] + b':2: ' + key + b': '
             for k, m in f.msgs:
                 ref = refs[l].get((fi, k))
                 if ref is None:
@@ -328,7 +328,7 @@ def locale_proc_stage(rep, tools, rng):
                         what.append('%d explanations printed for %d non-empty sub-matches' % (len(e['expl']), len(printed)))
                     else:
                         for i, ((b, en), (quoted, marker)) in enumerate(zip(printed, e['expl'])):
-                            hd = head if i == 0 else b' ' * len(head)
+                            hd = head if i == 0 else b' ' * mbtext.display_width(head, l)
                             if quoted[:len(hd)] != hd:
                                 what.append('explanation does not begin with %r: %r' % (hd[-30:], quoted[:80]))
                                 continue
@@ -336,6 +336,8 @@ def locale_proc_stage(rep, tools, rng):
                             if k2 == 'no-verdict':
                                 continue
                             st['marker_lines_judged'] += 1
+                            if any(x >= 128 for x in head):
+                                st['marker_lines_with_non_ascii_head'] = st.get('marker_lines_with_non_ascii_head', 0) + 1
                             what += p2
                             known = known or k2
                 if what or known:
